@@ -119,6 +119,37 @@ def ob_truncate(ctx, kind, N):
                    sample=lambda m: dict(wit(m), records=len(part), error=type(perr).__name__ if perr else None))
 
 
+def ob_truncate_text(ctx, encs):
+    """a multi-line preamble in a multi-byte encoding, one symbolic character right after a newline: cuts inside that
+    character (and everywhere else) must not yield an altered section"""
+    from sx.core import sym_str
+    enc = ctx.pick('encoding', encs)
+    ch = sym_str(ctx, 'ch', 1)
+    text = mk_seq(tuple(map(ord, 'ab\n')) + tuple(ch.el) + tuple(map(ord, 'c\n')), str)
+    try:
+        content = lift(text).encode(enc)
+    except UnicodeEncodeError:
+        return skip('character not encodable')
+    bomless = {'utf-16': 'utf-16-le', 'utf-32': 'utf-32-le'}.get(enc, enc)
+    n = len(content)
+    pre = HEAD + b'#.preamble: encoding=%s, indent=0, length=%d\n' % (enc.encode(), n)
+    post = b'#.change: x=12\n#..file:\n#...meta: length=3\n{}\n'
+    F = mk_seq(tuple(pre) + tuple(lift(content).el) + tuple(post), bytes)
+    full, err = _read(F)
+    if err is not None:
+        return skip('intact file rejected (not well-formed for this content)')
+    lo = len(pre)
+    p = ctx.choose(lo, lo + n, 'cut')
+    part_data = mk_seq(lift(F).el[:p], bytes)
+    wit = lambda m: {'kind': 'truncate', 'file': model_bytes(m, F), 'cut': p}
+    try:
+        part, perr = _read(part_data)
+    except PathTimeout:
+        return viol('nontermination', wit(ctx.model()))
+    return verdict(ctx, _prefix_props(full, part, perr), witness=wit,
+                   sample=lambda m: dict(wit(m), records=len(part), error=type(perr).__name__ if perr else None))
+
+
 TOKENS = [b'-1', b'-0', b'abc', b'1.0', b'1_0', b'0x3', b'', b'-', b'1e1', b'07', b'007']
 
 
@@ -159,6 +190,10 @@ def obligations(tier):
                       path_timeout=8, desc='real reader on F[:p] for every cut point p; F has a symbolic %s section; '
                       'records must be a prefix of the intact file\'s records, then end or DiffXParseError' % kind,
                       bounds={'content_len': [1, N], 'cut': 'every position'}))
+    encs = ['utf-8', 'utf-16', 'utf-32-be'] if quick else ['utf-8', 'utf-8-sig', 'utf-16', 'utf-16-be', 'utf-32', 'utf-32-be', 'latin-1']
+    obs.append(Ob('truncate[multibyte-text]', ob_truncate_text, dict(encs=encs), must_reach=['DiffXReader._read_content'],
+                  path_timeout=8, desc='three-line preamble in %s with a symbolic character right after a newline, cut at every '
+                  'position of the content (also inside a character)' % encs, bounds={'encodings': encs, 'cut': 'every content position'}))
     obs.append(Ob('length-perturbed', ob_length, dict(N=N), must_reach=['DiffXReader._read_content'], path_timeout=8,
                   desc='last section\'s length replaced by n+1..n+3, negative, non-numeric and exotic tokens',
                   bounds={'content_len': [1, N], 'tokens': len(TOKENS)}))
@@ -239,11 +274,34 @@ def replay(ob, label, w):
     short_content = [s for s in st.short if s[0] in declared and s[0] != 96]
     # the bytes actually present for the short section = the tail of the input
     ind = part[-1]['options'].get('indent', 0) if part and isinstance(part[-1]['options'].get('indent', 0), int) else 0
+    # ... measured in the section's own encoding: the newline (and the indentation spaces) of a UTF-16/32 section
+    # are 2 / 4 bytes wide
+    import codecs
+    chain = []
+    eff = None
+    for r in part:
+        lvl = r['level']
+        own = r['options'].get('encoding')
+        if r['section'] in ('diffx', '.change', '..file'):
+            chain = chain[:lvl] + [own]
+        else:
+            eff = own if (own or r['type'] == 'diff') else next((e for e in reversed(chain[:lvl + 1]) if e), None)
+
+    def enc_(t):
+        try:
+            b = t.encode(eff) if isinstance(eff, str) else t.encode('ascii')
+        except (LookupError, UnicodeError):
+            return t.encode('ascii')
+        for bom in (codecs.BOM_UTF32_LE, codecs.BOM_UTF32_BE, codecs.BOM_UTF8, codecs.BOM_UTF16_LE, codecs.BOM_UTF16_BE):
+            if b.startswith(bom) and len(b) > len(bom):
+                return b[len(bom):]
+        return b
+    sp, nl = enc_(' '), enc_('\n')
     tail = G
     j = 0
-    while j < ind and tail.endswith(b' '):
-        tail = tail[:-1]
+    while j < ind and tail.endswith(sp):
+        tail = tail[:-len(sp)]
         j += 1
-    ends_nl = tail.endswith(b'\n')
+    ends_nl = tail.endswith(nl) and (len(nl) == 1 or (len(tail) - len(nl)) >= 0)
     sig = 'short-read-accepted' if (short_content and ends_nl) else 'framing:altered-section'
     return {'violated': True, 'signature': sig, 'detail': '%s; input %r; short reads %r' % (bad, G, st.short)}
